@@ -849,8 +849,16 @@ func (ctx Ctx) selectExpr(e *ast.SelectorExpr) coq.Expr {
 	// Check if the select expression is actually referring to a function object
 	// If it is, we need to translate to 'StructName__FuncName varName' instead
 	// of a struct access
-	_, isFuncType := (ctx.typeOf(e)).(*types.Signature)
+	sig, isFuncType := (ctx.typeOf(e)).(*types.Signature)
+	if sel, isSel := ctx.info.Selections[e]; isSel && sel.Kind() == types.FieldVal {
+		// a field of function type is an ordinary field, not a method
+		isFuncType = false
+	}
 	if isFuncType {
+		if sig.Params().Len() == 0 {
+			// T__m x would run the method instead of producing a function
+			ctx.unsupported(e, "method value of a method without parameters")
+		}
 		m := coq.MethodName(structInfo.name, e.Sel.Name)
 		ctx.dep.addDep(m)
 		return coq.NewCallExpr(coq.GallinaIdent(m), ctx.expr(e.X))
